@@ -241,7 +241,7 @@ def gen_case(rng):
     if rng.random() < 0.14:
         # aimed at SimplePathStrategy's hand-over between fragments and its KMP fall-back
         case['doc'] = G.rand_doc(rng, rng.choice([9, 12, 16]), deep=True)
-        case.update(kind='strategies', path=rand_fragpath(rng))
+        case.update(kind='strategies', path=G.rand_fragpath(rng))
         return case
     if r < 0.6:
         profile = rng.choice([G.SIMPLE, G.SIMPLE, G.STRUCT, G.FULL])
@@ -370,33 +370,6 @@ def frag_stats(text, doc, res):
             res.count('simple:kmp-fallback-nonzero')
             if len(ne) >= 2:
                 res.count('simple:multi-fragment+kmp-fallback-nonzero')
-
-
-def rand_fragpath(rng):
-    """a path SimplePathStrategy supports with 2-3 fragments over the names of the deep documents
-    (`a` twice as likely as `b`, so that fragments overlap themselves: `a/a/b`), entered through
-    descendant:: / descendant-or-self::, sometimes with a `self::` step or a final attribute / text() step"""
-    names = ['a', 'a', 'b']
-    out = ''
-    nfr = rng.choice([2, 2, 3])
-    for k in range(nfr):
-        tests = [rng.choice(names) for _ in range(rng.choice([1, 2, 2, 3]))]
-        steps = []
-        for j, t in enumerate(tests):
-            steps.append(t)
-            if rng.random() < 0.07:
-                steps.append('self::' + (t if rng.random() < 0.8 else rng.choice(names)))
-        if k == nfr - 1 and rng.random() < 0.12:
-            steps.append(rng.choice(['text()', 'comment()']))
-        body = '/'.join(steps)
-        if k == 0:
-            lead = rng.choice(['', '', '', 'self::', 'descendant::', '//', 'descendant-or-self::'])
-            out = lead + body
-        else:
-            out += '/' + rng.choice(['descendant::', 'descendant::', 'descendant-or-self::']) + body
-    if rng.random() < 0.1:
-        out += '/@' + rng.choice(G.ATTR_NAMES)
-    return out
 
 
 def check_cases(cases, res):
